@@ -467,3 +467,8 @@ def run(ctx):
     ctx.require_count("R19.2", 5)
     ctx.require_count("R19.3", 4)
     ctx.functions_analysed.update({f.qualname: 1 for f in fc_methods + [dl, worker]})
+    # the worker fetches through whatever resource object handles the URI: every `download` of the resource classes (and the
+    # fetch function it builds) is on the path of a request and is resolved against the environment in the thorough tier
+    rr = p.modules.get("filecache.remote_resources")
+    ctx.functions_analysed.update({f.qualname: 1 for f in p.all_functions if rr is not None and f.module is rr and f.cls is not None
+                                   and f.parent is None})
